@@ -204,4 +204,75 @@ Section Passes.
       apply (Pres_fold (fun m r => fold_left (fun m (rk : gref * vid) => try_elim_identity m (snd rk)) (rec_nodes fuel m r) m)); auto.
       intros m0 r HW0 HN0. apply (Pres_fold (fun m (rk : gref * vid) => try_elim_identity m (snd rk))); auto. intros; apply ident_step; assumption.
   Qed.
+
+  (* ------------------------------------------------------------ RemoveUnusedNodesPass *)
+  Lemma filter_true {A} (l : list A) : filter (fun _ => true) l = l.
+  Proof. induction l; simpl; [reflexivity | rewrite IHl; reflexivity]. Qed.
+  Lemma map_subst_id l : map (fun n => subst_ins (fun v => v) n) l = l.
+  Proof. rewrite <- (map_id l) at 2. apply map_ext. intros; apply subst_ins_id. Qed.
+
+  Lemma remove_eq k m : remove_node k m = rw (fun n => n) (fun v => v) (fun n => negb (has_key k n)) (fun _ => g_inits) m.
+  Proof.
+    rewrite rw_map_graphs. unfold remove_node. apply map_graphs_ext. intros g. unfold rw_graph, set_nodes.
+    rewrite map_subst_id, map_id. reflexivity.
+  Qed.
+  Lemma update_trim_eq k m : update_node k trim_node m = rw (trim_at k) (fun v => v) (fun _ => true) (fun _ => g_inits) m.
+  Proof.
+    rewrite rw_map_graphs. unfold update_node. apply map_graphs_ext. intros g. unfold rw_graph, map_nodes, set_nodes.
+    rewrite filter_true, map_id. f_equal. apply map_ext. intros n. rewrite subst_ins_id. reflexivity.
+  Qed.
+  Lemma update_id_eq k F m : (forall n, F n = n) -> update_node k F m = m.
+  Proof.
+    intros HF. unfold update_node. rewrite <- (map_graphs_id m) at 2. apply map_graphs_ext. intros g.
+    unfold map_nodes, set_nodes. destruct g as [i t ns o]. simpl. f_equal.
+    rewrite <- (map_id ns) at 2. apply map_ext. intros n. destruct (has_key k n); [apply HF | reflexivity].
+  Qed.
+
+  Lemma node_uses_false w n : node_uses w n = false -> ~ In (Some w) (n_ins n).
+  Proof.
+    unfold node_uses. intros H Hin. assert (existsb (fun o => match o with Some w0 => N.eqb w0 w | None => false end) (n_ins n) = true).
+    { apply existsb_exists. exists (Some w). split; [exact Hin | apply N.eqb_refl]. } congruence.
+  Qed.
+  Lemma has_uses_false m w : has_uses m w = false -> forall n, In n (all_nodes m) -> ~ In (Some w) (n_ins n).
+  Proof.
+    unfold has_uses. intros H n Hn. apply node_uses_false.
+    destruct (node_uses w n) eqn:E; [|reflexivity]. exfalso.
+    assert (existsb (node_uses w) (all_nodes m) = true) by (apply existsb_exists; eauto). congruence.
+  Qed.
+  Lemma is_graph_output_false m o : is_graph_output m o = false -> forall g, In g (graphs_of m) -> ~ In o (g_outs g).
+  Proof.
+    unfold is_graph_output. intros H g Hg Hin.
+    assert (existsb (fun g => memN o (g_outs g)) (graphs_of m) = true) by (apply existsb_exists; exists g; split; [exact Hg | apply memN_In; exact Hin]).
+    congruence.
+  Qed.
+
+  Lemma dead_step m k n : WF m -> NoOpFunc m -> get_node m k = Some n ->
+    forallb (fun o => negb (is_graph_output m o) && negb (has_uses m o)) (n_outs n) = true -> Pres m (remove_node k m).
+  Proof.
+    intros HW HN Eg Hdead. destruct (get_node_spec _ _ _ Eg) as [Hin Hk].
+    assert (Hd : forall o, In o (n_outs n) -> is_graph_output m o = false /\ has_uses m o = false).
+    { intros o Ho. rewrite forallb_forall in Hdead. specialize (Hdead o Ho). apply andb_prop in Hdead.
+      destruct Hdead as [A B]. apply negb_true_iff in A. apply negb_true_iff in B. auto. }
+    rewrite remove_eq.
+    assert (Hinits : all_inits (rw (fun n => n) (fun v => v) (fun n => negb (has_key k n)) (fun _ => g_inits) m) = all_inits m) by apply all_inits_rw_same.
+    constructor.
+    - apply WF_rw; auto using tr_ok_id. rewrite Hinits. apply (wf_init_prod m HW).
+    - apply NoOpFunc_rw. exact HN.
+    - apply all_formals_rw.
+    - intros env r He Hc.
+      eapply (step_computes T absent tensor_val interp interp_mono interp_identity interp_trailing_absent
+                            (fun n => n) (fun v => v) (fun n => negb (has_key k n)) (fun _ => g_inits) m (fun v => ~ In v (n_outs n)));
+        eauto using tr_ok_id.
+      + intros n0 w Hn0 _ Hw Hwn. destruct (Hd w Hwn) as [_ Hu]. exact (has_uses_false m w Hu n0 Hn0 Hw).
+      + intros g Hg. apply Forall_forall. intros o Ho Hon. destruct (Hd o Hon) as [Hgo _]. exact (is_graph_output_false m o Hgo g Hg Ho).
+      + intros v t _ Ei. rewrite Hinits. auto.
+      + intros v n0 i HL Ei Ep. left. rewrite Hinits. repeat split; auto.
+        destruct (find_prod_In _ _ _ _ Ep) as [Hin0 Hidx]. apply index_of_In in Hidx as Hv.
+        apply negb_true_iff. destruct (has_key k n0) eqn:Hk0; [|reflexivity]. exfalso.
+        assert (In k (n_outs n0)). { apply has_key_first; auto. intros Hnil. rewrite Hnil in Hv. contradiction. }
+        assert (Hne : n_outs n <> []) by (apply (wf_nonempty m HW); exact Hin).
+        assert (n0 = n). { eapply producer_unique; eauto. apply has_key_first; auto. } subst n0. exact (HL Hv).
+    - reflexivity.
+    - unfold rw, mk2. simpl. apply map_length.
+  Qed.
 End Passes.
